@@ -250,7 +250,7 @@ theorem rollback (h : KPos L) : KPos L.rollback := by
     exact { srcLen := h.srcLen, cur := hcur, tok := htok,
             toks := fun t ht => h.toks t (mem_truncR ht),
             lines := fun l hl => h.lines l (mem_truncR hl),
-            errs := h.errs, cp := by intro c' hc'; simp at hc',
+            errs := fun e he => h.errs e (mem_truncR he), cp := by intro c' hc'; simp at hc',
             mark := h.mark, errReg := h.errReg }
   · exact h.emitError _
 
